@@ -21,7 +21,9 @@ SUBMIT_ASSUMPTIONS = [
     "runtime level: the Submit future of compio-runtime (poll for both result shapes, the pin-project drop body) is interpreted from "
     "MIR with the Proactor summarised by its contract: submit_raw -> Pending(key) | Ready(result), poll_task -> Pending(key) | "
     "Ready(result), cancel(key); context with / without cancel token and extra data; programs of <= 3 steps of poll / drop",
-    "outside: SubmitMulti (multishot stream), CancelToken's own bookkeeping, the timeout / select combinators that drop the future",
+    "SubmitMulti (multishot stream) likewise, with poll_multishot -> Some(item) | None; programs of <= 4 poll_next / drop steps",
+    "outside: the typed stream adapters on top of SubmitMulti (buffer hand-over), CancelToken's own bookkeeping, the timeout / "
+    "select combinators that drop the future",
 ]
 
 
